@@ -97,3 +97,31 @@ func leakedHandles(prefix string) (fds, maps []string) {
 	}
 	return
 }
+
+// loopBudget is a monitor for non-termination decided on logical steps, not on wall-clock time: the library
+// reports each iteration of an instrumented loop through the yield hook; one API call that reports more
+// iterations than any correct execution can need (a B+ tree descent is bounded by the tree's height) is stopped
+// by a panic raised from the hook, which the caller's per-call recover turns into a violation.
+type loopBudget struct {
+	n     int64
+	limit int64
+}
+
+type loopBudgetExceeded struct{ point string }
+
+func (e loopBudgetExceeded) Error() string {
+	return "verif: loop budget exceeded at " + e.point + " (the call does not terminate)"
+}
+
+func (lb *loopBudget) hook(point string) {
+	if !strings.HasSuffix(point, ".descend") {
+		return
+	}
+	lb.n++
+	if lb.n > lb.limit {
+		lb.n = 0
+		panic(loopBudgetExceeded{point})
+	}
+}
+
+func (lb *loopBudget) reset() { lb.n = 0 }
